@@ -41,6 +41,10 @@ type explorer struct {
 	tainted bool        // the live database no longer matches the model (after a reported violation)
 	onExec  func(*inst) // told which instance is about to execute operations
 	init    []event     // committed before the exploration starts (not counted in the depth)
+	// opFilter restricts the operations inside a transaction (cursor family); cursorCommits makes
+	// every distinct cursor walk that deleted through the cursor a commit candidate of its own
+	opFilter      func(op string) bool
+	cursorCommits bool
 
 	memo map[string]int // committed-state digest -> largest remaining depth expanded
 
@@ -266,6 +270,9 @@ func (e *explorer) inner(in *inst, prefix []event, rem int, rw bool, top bool) [
 				continue
 			}
 			for _, op := range n.tm.ops(maxBlocks) {
+				if e.opFilter != nil && !e.opFilter(op) {
+					continue
+				}
 				if e.stop != nil && e.transitions&0xff == 0 && e.stop() {
 					e.capped = true
 				}
@@ -283,7 +290,11 @@ func (e *explorer) inner(in *inst, prefix []event, rem int, rw bool, top bool) [
 				next = append(next, nn)
 				canEnd := len(body)+2 <= rem
 				if rw && canEnd {
-					if od := tm2.overlayDigest(); !overlays[od] {
+					od := tm2.overlayDigest()
+					if e.cursorCommits && strings.Contains(tm2.curOps, "D") {
+						od += "|" + fmt.Sprint(tm2.curB) + tm2.curOps
+					}
+					if !overlays[od] {
 						overlays[od] = true
 						commits = append(commits, body)
 					}
